@@ -345,6 +345,23 @@ def _run_cb(case, ctx):
                 ctx.check("C16.export", bytes(g) == rr, f"{kind} result does not round-trip")
             else:
                 ctx.feat("cb_setop_result_saturated_estimate")
+            if res.elements_added >= 1:
+                # the PRODUCT stays in use: a key that has a pinned cell and unpinned ones is removed from it once - the cell a merge
+                # pinned is as frozen as one an add pinned (the removal is within the product's element count: see the open
+                # finding KF_SETOP_PRODUCT_NEGATIVE_COUNT for what lies beyond)
+                for key in pool:
+                    vals = [want[p] for p in pos[key]]
+                    if true[key] + strue[key] >= 1 and any(v == U32MAX for v in vals) and 0 < min(vals) < U32MAX:  # (a legitimate removal)
+                        ctx.call(nx, res.remove, key, 1)
+                        want2 = list(want)
+                        for p in pos[key]:
+                            if want2[p] < U32MAX:
+                                want2[p] -= 1
+                        got2 = [int(x) for x in res.bloom]
+                        ctx.check("C16.cb_cells", got2 == want2,
+                                  lambda: f"remove({key!r},1) from a {kind} product: cells {got2} != {want2} (cells pinned by the merge must stay pinned)")
+                        ctx.feat("cb_remove_from_product_with_pinned_cell")
+                        break
             ctx.feat("cb_" + kind)
             ctx.op(kind, op[1])
         raw = ctx.call(nx, bytes, o)
